@@ -70,6 +70,18 @@ def gen_cases(tier, seed):
                 if i < len(toks):
                     add("multibyte-abut", " ".join(toks[:i] + [toks[i] + ch] + toks[i + 1:]))
                     add("multibyte-abut", " ".join(toks[:i] + [ch + toks[i]] + toks[i + 1:]))
+    # truncation: every prefix of a few sources — a file may end anywhere: inside a mnemonic, right after a directive,
+    # after the opening quote of a string, inside an escape, inside a multi-byte character's neighbourhood ...
+    samples = [
+        '.orig x3000\nlea r0 msg\nputs\nhalt\nmsg .stringz "hi\\n\\"q\\"" ; c\n.fill x-1\n.blkw #2\n.end\n',
+        'lbl: ADD R1,R1,#-16\n  brnzp lbl\n ld r7 , x0FF\ntrap x25\n.break\nstr r1 r2 #-32\n',
+        'a .stringz "é日"\nb .fill #65535\njsr a\nputsp\n',
+    ] + base[:3]
+    for text in samples:
+        for k in range(len(text) + 1):
+            add("truncated", text[:k])
+            if k % 3 == 0:
+                add("truncated", text[:k] + "\n")
     return cases, tags
 
 
@@ -81,7 +93,7 @@ def correspondence(ctx, violations, known_hits):
     ctx.cleanup()
     return {
         "evaluations": r["evaluations"], "distinct_nontrivial": len(r["sigs"]),
-        "rule": "fixed corpus (past panics, edge tokens, NUL, multi-byte characters in every token class, unterminated strings, "
+        "rule": "fixed corpus (past panics, edge tokens, NUL, multi-byte characters in every token class, unterminated strings, EVERY PREFIX of six sources (a file may end anywhere), "
                 "lone backslash) + size extremes (.blkw xFFFF repeated, label distances 0x7FFF/0x8000/0x8001, 70k-character "
                 ".stringz, 65,534/65,535 statements) + seeded token-level and byte-level mutants of grammar-derived programs + "
                 "a 2/3/4-byte character at and abutting every token position; every rejection is rendered with miette and its "
